@@ -159,7 +159,7 @@ def compare(name, S, arg, out, tier, rng, label=''):
             if vs:
                 blame = 'invalid-side-bad-model'
                 d = vs[0]['diagnosis']
-                detail = dict(diag=d.get('diag'), node_kind=d.get('node_kind'), clause=d.get('clause'))
+                detail = dict(diag=d.get('diag'), node_kind=d.get('node_kind'), model_clause=d.get('clause'))
         differ = sorted({k for k in ('group_optim', 'rank_optim') if v[0][k] != iv[0][k]}
                         | ({'driver'} if v[1] != iv[1] else set()) | ({'order'} if v[2] != iv[2] else set())
                         | ({'premise-order/multiplicity'} if v[4] != iv[4] else set()))
